@@ -17,8 +17,8 @@ LsqCand(M, w2, t, lb, ub, asg) ==
       MF == SubCols(M, free)
       G == IF k = 0 THEN <<>> ELSE MatMul(Transpose(MF), RowScale(w2, MF))
       gv == IF k = 0 THEN <<>> ELSE MatVec(Transpose(MF), VMul(w2, rhs0))
-      dt == Det(G)
-  IN IF dt = 0 THEN [ok |-> FALSE, den |-> 0, x |-> xfix, q |-> xfix, g |-> xfix, asg |-> asg]
+      dt == IF k > d THEN 0 ELSE Det(G)   \* more free sources than receptors: singular, never a vertex of the minimiser set
+  IN IF k > d \/ dt = 0 THEN [ok |-> FALSE, den |-> 0, x |-> xfix, q |-> xfix, g |-> xfix, asg |-> asg]
      ELSE
        LET nums == [c \in 1..k |-> Det(ReplaceCol(G, c, gv))]
            xnum == [j \in 1..n |-> IF asg[j] = 2 THEN nums[Pos(free, j)] ELSE xfix[j] * dt]
